@@ -3,5 +3,5 @@ From PV Require Import Base.Bytes Base.Outcome Base.DrvBase Model.Der Model.Sec 
 Extraction "../ml/c10.ml" drv_base
   sigencode_der sigdecode_der encode_integer encode_length read_length remove_integer remove_sequence
   bip66_valid
-  to_bytes_32 public_pair_to_sec sec_to_public_pair points_for_x key_from_sec key_public key_private
+  to_bytes_32 public_pair_to_sec sec_to_public_pair points_for_x key_from_sec key_public key_public_arg key_private
   wif_payload parse_wif_payload.
